@@ -58,3 +58,4 @@ def run(ctx, R):
     x86loop.rule_loopload(ctx, R)
     x86loop.rule_dsitem(ctx, R)
     vmcfg.rule_initorder(ctx, R, astq.Facts(ctx, 'K0'))
+    x86loop.rule_isa_base(ctx, R)
